@@ -555,6 +555,8 @@ def _alternatives(name: str, needed: set) -> list:
 def _bump(v: Any) -> Any:
     if isinstance(v, bool):
         return None
+    if isinstance(v, float) and v in (float("inf"), float("-inf")):
+        return -v                      # inf + 1.25 is inf: the other infinity is the neighbouring value
     if isinstance(v, int):
         return v + 1
     if isinstance(v, float):
@@ -1068,12 +1070,22 @@ def config_case(g, i: int, fc_share: float = 0.25, very_long: bool = False) -> d
                 blk["variables"][v] = long if isinstance(spec, list) else {"values": long}
                 if "long_sequence" not in tags:
                     tags.append("long_sequence")
+    if g.chance(0.12):
+        # required context keys that differ only by letter case / sort differently with and without case: the list inspection
+        # reports is documented as sorted, and must be the same list in every process
+        nodes.insert(g.rng.randint(0, len(nodes)), {"processor": "template:\"{Zeta}_{alpha}_{Scan}_{scan}_{SCAN}\":mixlabel"})
+        case["ctx"] = dict(case["ctx"], Zeta="z", alpha="a", Scan="s1", scan="s2", SCAN="s3")
+        tags.append("mixed_case_required_keys")
     if g.chance(0.1):
         # a node whose `parameters:` key is present but empty (YAML null): every path must agree on what that means
         bare = [k for k, n in enumerate(nodes) if "parameters" not in n and isinstance(n.get("processor"), str)]
         if bare:
             nodes[g.rng.choice(bare)]["parameters"] = None
             tags.append("null_parameters_block")
+    if very_long and g.chance(0.08):
+        # non-finite parameter values (.inf / -.inf in YAML): values like any other
+        nodes.insert(g.rng.randint(0, len(nodes)), {"processor": "VCtxMeta", "parameters": {"vmeta": {"limit": float("inf"), "floor": [float("-inf"), 1.0], "gain": 2.0}}})
+        tags.append("non_finite_parameter")
     if very_long and g.chance(0.06):
         # an explicit sequence of a few thousand values (a measured grid): every element is identity-bearing
         for n in nodes:
